@@ -131,7 +131,14 @@ func init() {
 	if dir == "" {
 		return
 	}
-	f, err := os.OpenFile(filepath.Join(dir, "inflight-case.bin"), os.O_RDWR|os.O_CREATE|os.O_TRUNC, 0o644)
+	for _, a := range os.Args[1:] {
+		// native fuzzing runs a coordinator and many worker processes in ONE directory: they would share (and
+		// truncate under each other) the mapped file. The fuzzing engine reports a dying worker with its input itself.
+		if strings.HasPrefix(a, "-test.fuzz") {
+			return
+		}
+	}
+	f, err := os.OpenFile(filepath.Join(dir, "inflight-case.bin"), os.O_RDWR|os.O_CREATE, 0o644)
 	if err != nil {
 		return
 	}
